@@ -175,7 +175,8 @@ def build_harness(bdir, name, cfg="dbg", libs=None, extra_src=(), extra_flags=()
     cmd = [cc, std, "-w", "-D" + GUARD] + CFG_FLAGS[cfg].split() + \
           ["-I" + os.path.join(REPO, "include"), "-I" + os.path.join(bdir, "include"),
            "-I" + os.path.join(REPO, "src"), "-I" + HARNESS] + list(extra_flags) + \
-          [src] + list(extra_src) + ["-L" + os.path.join(bdir, "lib"), "-Wl,-rpath," + os.path.join(bdir, "lib")] + \
+          [src] + list(extra_src) + ["-L" + os.path.join(bdir, "lib"), "-Wl,--disable-new-dtags",
+                                     "-Wl,-rpath," + os.path.join(bdir, "lib")] + \
           ["-l" + l for l in libs] + ["-o", exe]
     rc, out, err = sh(cmd, timeout=600)
     if rc != 0:
